@@ -9,10 +9,10 @@ import (
 
 func init() {
 	register(&propDef{
-		ID:    "C05",
-		Level: "other",
+		ID:      "C05",
+		Level:   "other",
 		Explain: "Structural necessary conditions of the route command semantics: (K1) every index, update and delete on a route.Table uses a canonical host key — the result of strings.ToLower (or of a function all of whose returns are), a range key of a table, a constant, or Route.Host — checked interprocedurally through parameters and multi-value returns, so add, del and weight all address the same entry whatever the letter case of the command; (D1) in every Table method that calls Route.filter, each such call is followed on every path to return by the loop that rebuilds the host's route list without empty routes and by the loop that deletes hosts without routes; (G1) the keywords the renderer (Route.TargetConfig) emits — route add, weight, tags, opts — appear in the order the add grammar accepts them; (Q1) producers and consumer of quoted fields agree on the encoding: the parser takes the text between the quotes verbatim (no Unquote), so no producer of route commands (Route.TargetConfig, consul routecmd.build) may escape with %q / strconv.Quote; (W1) weighRoute reports 'no match' when setWeight changed nothing, and setWeight does not rebuild the ring in that case. (I1) URLs are compared by their text, never by pointer or shallow struct equality (idempotent add). Not decided: equality of the resulting table with an independent model over generated scripts, idempotence of add (value comparison of targets), the 4-decimal weight round trip (value equality of data structures).",
-		Run:   runC05,
+		Run:     runC05,
 		Trusted: []string{"regexp capture groups return the matched text verbatim"},
 		Mutants: []mutant{
 			{Name: "hostpath no longer lower-cases", File: "route/table.go", Old: "\thost, path = strings.ToLower(p[0]), \"\"", New: "\thost, path = p[0], \"\"", Expect: "C05.K1"},
